@@ -423,6 +423,7 @@ class SimLock:
         self._w.check_alive()
         if not self._held:
             raise RuntimeError("release unlocked lock")
+        self._w.sched_point()       # preempted while still holding the lock
         self._held = False
         self._owner = None
         self._w.version += 1
@@ -472,6 +473,7 @@ class SimRLock:
             raise RuntimeError("cannot release un-acquired lock")
         self._count -= 1
         if self._count == 0:
+            self._w.sched_point()   # preempted while still holding the lock
             self._owner = None
             self._w.version += 1
             self._w.sched_point()
